@@ -287,12 +287,14 @@ def build_sequence(case):
     return PassSequence([build_unit(u, f"U{i}", kw0) for i, u in enumerate(case["units"])], label="S", **kw0)
 
 
-def build_in_profile(spec, complete=True):
+def build_in_profile(spec, without=None):
+    """`without`: name of a value to leave out (the deficient incoming profile of the missing-value fault)"""
     from pyroll.core import Profile
     kw = dict(temperature=spec.get("temperature", 1200 + 273.15), material=["C45", "steel"], density=7.5e3,
               specific_heat_capacity=690, strain=spec.get("strain", 0), length=spec.get("length", 1.0))
-    if spec.get("flow_stress") is not None and complete:
+    if spec.get("flow_stress") is not None:
         kw["flow_stress"] = spec["flow_stress"]
+    kw.pop(without, None)
     s, kind = spec["size"], spec["kind"]
     if kind == "round":
         return Profile.round(diameter=s, **kw)
@@ -514,6 +516,8 @@ def gen_case(rng):
     case["fault"] = {"hook": rng.choice(FAULT_HOOKS), "type": ftype, "u": round(rng.random(), 6)}
     if "flow_stress" not in models and rng.random() < 0.5:
         case["fault"] = {"missing": "flow_stress"}
+    elif (models.get("flow_stress", {}).get("beta") or "temperature" in models) and rng.random() < 0.3:
+        case["fault"] = {"missing": "temperature"}
     if rng.random() < 0.5:
         si = {"temperature": spec_in["temperature"] - rng.choice([60.0, 150.0])}
         if "flow_stress" in spec_in and rng.random() < 0.7:
@@ -724,6 +728,92 @@ def run_subunit_wrap(ctx, outcomes, lines, pending):
 
 
 # ---------------------------------------------------------------------------------------------------------------
+# (C) `init_solve` on a unit that already has an out profile: the real method vs `Solve.handOver`
+# ---------------------------------------------------------------------------------------------------------------
+
+HAND_PLAIN = ["flow_stress", "temperature", "material", "density", "custom_a", "custom_b", "velocity", "filling_ratio"]
+
+HANDOVER_CORPUS = [
+    # finding 1: the first incoming profile lacks `flow_stress`; the next one has it
+    {"cls": "pass", "ops": [["init", {"strain": 1, "temperature": 2}], ["set", "strain", 3], ["init", {"strain": 4, "temperature": 5, "flow_stress": 6}]]},
+    # finding 2: a changed value, a value that is no longer handed over, root hooks keep the previous results
+    {"cls": "transport", "ops": [["init", {"t": 1, "length": 2, "flow_stress": 3, "density": 4}], ["set", "t", 5], ["set", "length", 6],
+                                 ["init", {"t": 7, "length": 8, "flow_stress": 9}], ["init", {"cross_section": 10}]]},
+    # an entry written into the out profile from outside, a root hook result deleted
+    {"cls": "unit", "ops": [["init", {"strain": 1}], ["set", "custom_a", 2], ["del", "strain"], ["del", "t"], ["init", {"strain": 3, "custom_b": 4}]]},
+]
+
+
+def gen_handover(rng):
+    cls = rng.choice(["unit", "transport", "pass"])
+    roots = ["cross_section", "classifiers", "strain", "length", "t"] + (["velocity", "filling_ratio"] if cls == "pass" else [])
+    pool = roots + HAND_PLAIN
+    nxt = [10]
+
+    def val():
+        nxt[0] += 1
+        return nxt[0] if rng.random() < 0.8 else rng.randrange(1, 4)
+    ops = [["init", {k: val() for k in rng.sample(pool, rng.randrange(0, 7))}]]
+    for _ in range(rng.randrange(1, 6)):
+        r = rng.random()
+        if r < 0.5:
+            ops.append(["init", {k: val() for k in rng.sample(pool, rng.randrange(0, 8))}])
+        elif r < 0.85:
+            ops.append(["set", rng.choice(pool), val()])
+        else:
+            ops.append(["del", rng.choice(pool)])
+    return {"cls": cls, "ops": ops}
+
+
+def _public(host):
+    return [(k, v) for k, v in host.__dict__.items() if not k.startswith("_")]
+
+
+def _entries(es):
+    return ",".join(f"{k}={v}" for k, v in es) if es else "-"
+
+
+def run_handover(ctx, hist, lines, pending):
+    """plays `hist` on a real unit: `init` = the real `Unit.init_solve(unit, Profile(**entries))` (the base method, without
+    what sub-classes add), `set` / `del` = what loop bodies or anybody else may have done to the out profile in between;
+    values are small integers standing for identities (nothing is evaluated by `init_solve`)"""
+    from pyroll.core import Unit, Transport, Profile, root_hooks
+    if hist["cls"] == "pass":
+        u = build_unit({"type": "pass", "groove": "oval", "scale": 1.0, "rotation": False}, "H", {})     # no pre-processor
+    elif hist["cls"] == "transport":
+        u = Transport(label="H", duration=1)
+    else:
+        u = Unit(label="H")
+    roots = []
+    for h in root_hooks:
+        if issubclass(type(u).OutProfile, h.owner) and h.name not in roots:
+            roots.append(h.name)
+    ctx.case({"handover": _canon(hist)}, nontrivial=sum(1 for o in hist["ops"] if o[0] == "init") >= 2)
+    ctx.count("handover-histories")
+    for i, op in enumerate(hist["ops"]):
+        if op[0] == "init":
+            tmpl = Profile(**op[1])
+            before = None if u.out_profile is None else _public(u.out_profile)
+            obj = u.out_profile
+            Unit.init_solve(u, tmpl)
+            after = _public(u.out_profile)
+            ctx.count("handover:" + ("create" if before is None else "re-use"))
+            if before is not None and u.out_profile is not obj:
+                ctx.count("handover:re-created")
+            if _public(u.in_profile) != _public(tmpl):
+                ctx.disagreement(f"init_solve: the in profile does not hold the public entries of the incoming profile: "
+                                 f"{_public(u.in_profile)} vs {_public(tmpl)}", {"handover": hist, "op": i})
+            if ctx.model_available:
+                lines.append(f"handover {','.join(roots) or '-'} {'N' if before is None else _entries(before)} {_entries(_public(tmpl))}")
+                pending.append(("handover", _entries(after), {"handover": hist, "op": i}))
+        elif u.out_profile is not None:
+            if op[0] == "set":
+                setattr(u.out_profile, op[1], op[2])
+            else:
+                u.out_profile.__dict__.pop(op[1], None)
+
+
+# ---------------------------------------------------------------------------------------------------------------
 # the oracle on one solve call (from the property text)
 # ---------------------------------------------------------------------------------------------------------------
 
@@ -855,6 +945,13 @@ def _same_vec(a, b):
 
 
 def compare_model(ctx, kind, ans, item):
+    if kind == "handover":
+        _, got, rp = item
+        if ans == got:
+            ctx.validated()
+        else:
+            ctx.disagreement(f"init_solve, public entries of the out profile afterwards: model {ans!r}, implementation {got!r}", rp)
+        return
     if kind == "sub":
         _, got, rp = item
         if ans == got:
@@ -1111,8 +1208,8 @@ def run_case(ctx, case, lines, pending):
     fault = dict(case.get("fault") or {})
     inj = {"hook": fault.get("hook", "unit.power"), "type": fault.get("type", "ValueError"), "k": None}
     with Registered(case, inj) as reg, Recorder() as rec:
-        def ip(complete=True):
-            return build_in_profile(case["in"], complete)
+        def ip(without=None):
+            return build_in_profile(case["in"], without)
         try:
             A = build_sequence(case)
         except Exception as e:
@@ -1171,23 +1268,39 @@ def run_case(ctx, case, lines, pending):
                 check_within(ctx, case, "resolve-not-within-precision", "second solve of the same sequence vs the first",
                              a1, a2, a1.frames + a2.frames)
                 ctx.count("resolve-compared")
-        # ---- the same sequence solved again with a CHANGED incoming profile vs a fresh sequence with that profile
+        # ---- the same sequence solved again with a CHANGED incoming profile vs a fresh sequence with that profile.
+        # INFORMATIONAL, never a violation: the statement speaks of "the same input" and of "solving the same sequence again";
+        # that a USED sequence given ANOTHER input ends like a fresh one is claimed only after an abort (where removing the
+        # cause may mean changing the input - `after_abort`).  The solve calls are still checked one by one (bounded,
+        # honest) and fed to the model.  On the unrepaired tree the comparison fails by 20 % (stale entries of the re-used
+        # out profiles, finding 2 of notes/C05.md); on the repaired one what remains is iteration-count dependent content
+        # (e.g. the `velocity` a roll pass hands to its disk elements is the predecessor's in the pass's first loop body
+        # and its own afterwards, and a used pass that has to iterate again ends on the other one).
         if case.get("second_input") and not a1.warned and not a2.warned and a2.err is None:
             spec2 = dict(case["in"])
             spec2.update(case["second_input"])
             g1 = solve_rec(rec, A, build_in_profile(spec2))
             g2 = solve_rec(rec, build_sequence(case), build_in_profile(spec2))
+            check_frames(ctx, case, g1.frames, lines, pending, "resolve-new-input")
             if g1.err is None and g2.err is None and not g1.warned and not g2.warned:
-                check_within(ctx, case, "resolve-new-input-differs-from-fresh", "used sequence solved with a changed incoming "
-                             f"profile ({case['second_input']}) vs a fresh sequence with it", g1, g2, g1.frames + g2.frames)
-                ctx.count("new-input-compared")
+                ctx.count("info:new-input-compared")
+                prec = max_prec(g1.frames + g2.frames)
+                (r, k), missing = diff_within(g1.snap, g2.snap, None)
+                (rr, kr), _ = diff_within({k_: v for k_, v in g1.snap.items() if k_.startswith("returned.")},
+                                          {k_: v for k_, v in g2.snap.items() if k_.startswith("returned.")}, None)
+                if prec is not None and rr > WITHIN_K * prec:
+                    ctx.count("info:new-input-returned-profile-differs-from-fresh")
+                if prec is not None and (missing or r > WITHIN_K * prec):
+                    ctx.count("info:new-input-differs-from-fresh")
+                    if r / prec > ctx.notes.get("info-new-input-ratio-max", 0.0):
+                        ctx.notes["info-new-input-ratio-max"] = round(r / prec, 3)
+                        ctx.notes["info-new-input-ratio-max-at"] = {"value": k, "second_input": case["second_input"], "prec": prec}
             elif (g1.err is None) != (g2.err is None):
-                report(ctx, "resolve-new-input-differs-from-fresh", f"changed incoming profile: used sequence {g1.err!r}, fresh {g2.err!r}",
-                       {"case": case})
+                ctx.count("info:new-input-raises-on-one-side")
         # ---- fault, then remove the cause and solve again
         if fault.get("missing"):
             E = build_sequence(case)
-            e1 = solve_rec(rec, E, ip(complete=False))
+            e1 = solve_rec(rec, E, ip(without=fault["missing"]))
             if e1.err is None:
                 ctx.count("fault:missing-value-not-needed")
             else:
@@ -1348,6 +1461,10 @@ def run(ctx):
         outs = [("o", "") if ctx.rng.random() < 0.7 else ("e", ctx.rng.choice(["ValueError", "KeyError", "RuntimeError", "TypeError"]))
                 for _ in range(ctx.rng.randrange(0, 5))]
         run_subunit_wrap(ctx, outs, lines, pending)
+    for hist in HANDOVER_CORPUS:
+        run_handover(ctx, hist, lines, pending)
+    for i in range(ctx.budget(80, 1200)):
+        run_handover(ctx, gen_handover(ctx.rng), lines, pending)
     for case in CORPUS:
         run_case(ctx, case, lines, pending)
     for i in range(ctx.budget(40, 600)):
@@ -1388,6 +1505,8 @@ def replay(ctx, data):
     ctx.model_available = False
     if "scripted" in r:
         run_scripted(ctx, r["scripted"], lines, pending)
+    elif "handover" in r:
+        run_handover(ctx, r["handover"], lines, pending)
     elif "subunits" in r:
         run_subunit_wrap(ctx, [tuple(x) for x in r["subunits"]], lines, pending)
     elif "case" in r:
